@@ -6,7 +6,7 @@ Local Open Scope N_scope.
 
 (* [true] = repaired code (fixes/C12-emip3-empty-plaintext.patch): decrypt needs at least 60 bytes;
    [false] = code as found: decrypt rejects every input of length <= 60, so the encryption of an empty plaintext is refused *)
-Definition fixed_emip3_empty : bool := false.
+Definition fixed_emip3_empty : bool := true.
 
 Definition SALT_SIZE : N := 32.
 Definition NONCE_SIZE : N := 12.
